@@ -389,6 +389,16 @@ def judge(c, r, v):
     if nan_tab:
         # 'MI' heuristic over a non-empty table with all medians equal: the code's 0/0.  Determined: every cell is NaN.
         res["status"] = "ok-degenerate"
+        # The medians are EXACTLY equal.  The code sees that (max - min == 0.0) for certain only when they are also computed
+        # from the same doubles: all label scores of the listed features are one and the same double.  Equal exact medians
+        # reached through different scores ((a+b)/2 = (c+d)/2) may differ in the last bit in floating point, and then the
+        # code normalises that noise to 1 / 0: nothing about the scores is determined; rows and order (one tie group) were
+        # compared above.
+        lab = c["label"]
+        vals = {float(Fraction(sc)) for a, b, sc in c["rows"] if lab == a.split("-")[0] or lab == b.split("-")[0]}
+        if len(vals) > 1:
+            res["status"] = "ok-degenerate-float-unresolved"
+            return res
         if not all(math.isnan(x) for _, x in so):
             return fail("C18_nan_cells: 'MI' heuristic and all medians equal: NaN (empty) cells expected, got %s" % so[:3])
         if agg_expected and not all(math.isnan(x) for _, x in ao):
@@ -494,6 +504,8 @@ def check(run, replay):
             hist["degenerate_minmax"] += 1
         if e["status"] == "ok-near-degenerate":
             hist["near_degenerate_minmax"] += 1
+        if e["status"] == "ok-degenerate-float-unresolved":
+            hist["degenerate_float_unresolved"] = hist.get("degenerate_float_unresolved", 0) + 1
         allnames = {x for a, b, _ in c["rows"] for x in (a, b)}
         if any(ch in x for x in allnames for ch in '"\t\n'):
             hist["names_needing_csv_quoting"] += 1
